@@ -159,6 +159,10 @@ func (f *FS) Rearm(k int) {
 	f.mu.Unlock()
 }
 
+// SetDelay installs a function called (outside the FS lock) before every mutating operation is
+// carried out: a slow device. nil removes it.
+func (f *FS) SetDelay(d func(op Op)) { f.mu.Lock(); f.delay = d; f.mu.Unlock() }
+
 func (f *FS) SetPhase(p string) { f.mu.Lock(); f.phase = p; f.mu.Unlock() }
 
 // Crashed tells whether the trigger has fired.
